@@ -25,6 +25,9 @@ pub enum Op {
     Decay(f32),
     Sustain(f32),
     Release(f32),
+    /// n set_input writes in a row to one input (0 attack, 1 decay, 2 release, 3 sustain), alternating the two
+    /// raw values, the last write being the second one
+    SetStorm(u8, f32, f32, u64),
 }
 
 #[derive(Clone, Debug)]
@@ -49,6 +52,7 @@ impl History {
                 Op::Decay(x) => format!("decay {}  # {:e}", f(*x), x),
                 Op::Sustain(x) => format!("sustain {}  # {:e}", f(*x), x),
                 Op::Release(x) => format!("release {}  # {:e}", f(*x), x),
+                Op::SetStorm(w, a, b, n) => format!("set_storm {} {} {} {}", w, f(*a), f(*b), n),
             };
             t.ops.push(s);
         }
@@ -69,6 +73,12 @@ impl History {
                 "decay" => Op::Decay(pf(arg.ok_or("arg")?)?),
                 "sustain" => Op::Sustain(pf(arg.ok_or("arg")?)?),
                 "release" => Op::Release(pf(arg.ok_or("arg")?)?),
+                "set_storm" => {
+                    let w = pu(arg.ok_or("arg")?)? as u8;
+                    let a = pf(it.next().ok_or("arg")?)?;
+                    let b = pf(it.next().ok_or("arg")?)?;
+                    Op::SetStorm(w, a, b, pu(it.next().ok_or("arg")?)?)
+                }
                 _ => return Err(format!("unknown adsr op '{}'", l)),
             };
             ops.push(op);
@@ -284,9 +294,47 @@ pub fn execute(h: &History, want: &str, rep: &mut Report, mut trace: Option<&mut
                     fail!("C02", "ignored-gate-disturbs", format!("ignored gate event in {} moved the phase counter {} -> {}", sname(st), bits_before, bits), i, None);
                 }
             }
-            Op::Attack(_) | Op::Decay(_) | Op::Sustain(_) | Op::Release(_) => {
+            Op::Attack(_) | Op::Decay(_) | Op::Sustain(_) | Op::Release(_) | Op::SetStorm(_, _, _, _) => {
                 let bits_before = call!(adsr.verif_phase_bits(), i, None);
                 match op {
+                    Op::SetStorm(which, a, b, n) => {
+                        let (which, a, b, n) = (*which, *a, *b, *n);
+                        call!(
+                            {
+                                let mk = |x: f32| match which {
+                                    0 => Input::Attack(x.into()),
+                                    1 => Input::Decay(x.into()),
+                                    2 => Input::Release(x.into()),
+                                    _ => Input::Sustain(x.into()),
+                                };
+                                let (ia, ib) = (mk(a), mk(b));
+                                let mut use_b = n % 2 == 1;
+                                for _ in 0..n {
+                                    adsr.set_input(if use_b { ib } else { ia });
+                                    use_b = !use_b;
+                                }
+                            },
+                            i,
+                            None
+                        );
+                        n_eval += n.saturating_sub(1);
+                        if n > 0 {
+                            match which {
+                                0 => ta = call!(spec_time(b), i, None),
+                                1 => td = call!(spec_time(b), i, None),
+                                2 => tr = call!(spec_time(b), i, None),
+                                _ => {
+                                    let ns = call!(spec_level(b), i, None);
+                                    ds_since_tick += (ns as f64 - s as f64).abs();
+                                    if ns != s {
+                                        s_changed = true;
+                                    }
+                                    s = ns;
+                                }
+                            }
+                            c_set[(which as usize).min(3)] += n;
+                        }
+                    }
                     Op::Attack(x) => {
                         call!(adsr.set_input(Input::Attack((*x).into())), i, None);
                         ta = call!(spec_time(*x), i, None);
@@ -716,7 +764,13 @@ pub fn run_and_record(h: &History, want: &str, rep: &mut Report, sample: bool) {
 }
 
 fn total_ticks(ops: &[Op]) -> u64 {
-    ops.iter().map(|o| if let Op::Tick(n) = o { *n } else { 1 }).sum()
+    ops.iter()
+        .map(|o| match o {
+            Op::Tick(n) => *n,
+            Op::SetStorm(_, _, _, n) => *n / 4 + 1,
+            _ => 1,
+        })
+        .sum()
 }
 
 /// greedy delta debugging on the op list while the same clause keeps firing (short histories only)
@@ -926,6 +980,48 @@ pub fn long_counts(ctx: &Ctx, want: &str) -> Report {
     })
 }
 
+/// a parameter written a power-of-two number of times between two ticks of a running phase (a wrapped write
+/// counter would make the last write invisible): 2^8 / 2^16 / 2^20 in the quick tier, 2^31 / 2^32 in the thorough tier
+pub fn set_storms(ctx: &Ctx, want: &str) -> Report {
+    if ctx.tier == Tier::Small {
+        return Report::new();
+    }
+    let mut totals: Vec<u64> = vec![256, 65_536, 1 << 20];
+    if ctx.tier == Tier::Thorough {
+        totals.extend([1u64 << 31, 1 << 32]);
+    }
+    let mut jobs: Vec<(u64, u8)> = Vec::new();
+    for t in &totals {
+        for d in [0u64, 1] {
+            for which in 0..4u8 {
+                if *t >= 1 << 31 && which == 1 {
+                    continue; // keep the 2^32 storms to three inputs
+                }
+                jobs.push((*t + d, which));
+            }
+        }
+    }
+    par_shards(ctx, jobs.len(), |j| {
+        let mut rep = Report::new();
+        let (n, which) = jobs[j];
+        let fs = [1000.0f32, 44100.0, 192000.0, 100.0][j % 4];
+        let slow = 8.0f32;
+        let fast = 40.0 / fs; // 40 ticks
+        let e_fast = enough(phase_ticks(fast, fs));
+        let mut ops = vec![Op::Attack(slow), Op::Decay(slow), Op::Sustain(0.8), Op::Release(slow)];
+        match which {
+            0 => ops.extend([Op::GateOn, Op::Tick(10), Op::SetStorm(0, slow, fast, n), Op::Tick(e_fast + 3), Op::Decay(fast), Op::Tick(e_fast + 3)]),
+            1 => ops.extend([Op::Attack(fast), Op::GateOn, Op::Tick(e_fast + 5), Op::SetStorm(1, slow, fast, n), Op::Tick(e_fast + 3)]),
+            2 => ops.extend([Op::Attack(fast), Op::Decay(fast), Op::GateOn, Op::Tick(2 * e_fast + 5), Op::GateOff, Op::Tick(7), Op::SetStorm(2, slow, fast, n), Op::Tick(e_fast + 3)]),
+            _ => ops.extend([Op::Attack(fast), Op::Decay(fast), Op::GateOn, Op::Tick(2 * e_fast + 5), Op::SetStorm(3, 0.8, 0.3, n), Op::Tick(4), Op::GateOff, Op::Tick(3)]),
+        }
+        let h = History { fs, ops };
+        run_and_record(&h, want, &mut rep, j == 0);
+        rep.count("adsr.set_storm_histories", 1);
+        rep
+    })
+}
+
 pub fn run(ctx: &Ctx, prop: &str) -> Report {
     let mut rep = Report::new();
     let stage = |name: &str, r: Report, rep: &mut Report, t0: std::time::Instant| {
@@ -933,6 +1029,8 @@ pub fn run(ctx: &Ctx, prop: &str) -> Report {
         rep.merge(r);
         rep.stages.push((name.to_string(), t0.elapsed().as_secs_f64(), ev));
     };
+    let t = std::time::Instant::now();
+    stage("adsr.set_storms", set_storms(ctx, prop), &mut rep, t);
     let t = std::time::Instant::now();
     stage("adsr.directed", directed(ctx, prop), &mut rep, t);
     let t = std::time::Instant::now();
